@@ -46,31 +46,106 @@ pub struct Event {
 
 #[derive(Clone, Debug)]
 pub enum Ev {
-	Boot { n: u32 },
-	BootOk { n: u32, pairs: Vec<Rc<super::snap::PairSnap>> },
-	BootErr { n: u32, msg: String },
-	Stopped { why: String },
-	AttemptBegin { cert: String, snap: Rc<super::snap::PairSnap> },
-	AttemptEnd { cert: String, ok: bool, snap: Rc<super::snap::PairSnap> },
+	Boot {
+		n: u32,
+	},
+	BootOk {
+		n: u32,
+		pairs: Vec<Rc<super::snap::PairSnap>>,
+	},
+	BootErr {
+		n: u32,
+		msg: String,
+	},
+	Stopped {
+		why: String,
+	},
+	AttemptBegin {
+		cert: String,
+		snap: Rc<super::snap::PairSnap>,
+	},
+	AttemptEnd {
+		cert: String,
+		ok: bool,
+		snap: Rc<super::snap::PairSnap>,
+	},
 	/// a request handed to the transport seam (admission instant of the limiter)
-	NetSend { tx: u64, ca: usize, method: String, url: String },
+	NetSend {
+		tx: u64,
+		ca: usize,
+		method: String,
+		url: String,
+	},
 	/// the request reached the CA (or was cut before): class as classified by the CA
-	NetDeliver { tx: u64, ca: usize, class: String, fault: Option<String> },
-	NetReply { tx: u64, ca: usize, status: u16, err: Option<String> },
-	HookSpawn { id: u64, rec: Rc<HookRec> },
-	HookExit { id: u64, code: Option<i32> },
-	SpawnFail { prog: String },
-	FsOpen { id: u64, path: String, write: bool, existed: bool, mode: Option<u32>, err: Option<String> },
-	FsWrite { id: u64, len: usize, err: Option<String> },
-	FsRead { id: u64, len: usize, err: Option<String> },
+	NetDeliver {
+		tx: u64,
+		ca: usize,
+		class: String,
+		fault: Option<String>,
+	},
+	NetReply {
+		tx: u64,
+		ca: usize,
+		status: u16,
+		err: Option<String>,
+	},
+	HookSpawn {
+		id: u64,
+		rec: Rc<HookRec>,
+	},
+	HookExit {
+		id: u64,
+		code: Option<i32>,
+	},
+	SpawnFail {
+		prog: String,
+	},
+	FsOpen {
+		id: u64,
+		path: String,
+		write: bool,
+		existed: bool,
+		mode: Option<u32>,
+		err: Option<String>,
+	},
+	FsWrite {
+		id: u64,
+		len: usize,
+		err: Option<String>,
+	},
+	FsRead {
+		id: u64,
+		len: usize,
+		err: Option<String>,
+	},
 	/// a written file was closed: `ok` = on-disk content equals exactly the bytes written
-	FsClose { id: u64, path: String, written: usize, disk_len: usize, exact: bool, stat: Option<super::snap::StatSnap> },
-	TimerSleep { ns: u128 },
-	ThreadSleep { ns: u128 },
-	Op { what: String },
+	FsClose {
+		id: u64,
+		path: String,
+		written: usize,
+		disk_len: usize,
+		exact: bool,
+		stat: Option<super::snap::StatSnap>,
+	},
+	TimerSleep {
+		ns: u128,
+	},
+	ThreadSleep {
+		ns: u128,
+	},
+	Op {
+		what: String,
+	},
 	/// content hash of a file observed by the harness (account files around truncations/boots)
-	FileNote { path: String, sha: String, len: u64, when: String },
-	Panic { msg: String },
+	FileNote {
+		path: String,
+		sha: String,
+		len: u64,
+		when: String,
+	},
+	Panic {
+		msg: String,
+	},
 }
 
 #[derive(Clone, Debug, Default)]
@@ -141,7 +216,9 @@ pub fn active() -> bool {
 pub fn with<R>(f: impl FnOnce(&mut World) -> R) -> R {
 	W.with(|c| {
 		let mut b = c.borrow_mut();
-		let w = b.as_mut().expect("no simulated world installed (harness error)");
+		let w = b
+			.as_mut()
+			.expect("no simulated world installed (harness error)");
 		f(w)
 	})
 }
@@ -152,7 +229,18 @@ impl World {
 		let faults = plan.faults.iter().map(|f| (f.clone(), 0)).collect();
 		let epoch0 = plan.world.epoch_unix;
 		let initial_global = plan.config.global.clone();
-		let initial_account = plan.config.accounts.first().map(|a| (a.contacts.clone(), a.external_account.as_ref().map(|e| e.identifier.clone()), a.key_type.clone())).unwrap_or_default();
+		let initial_account = plan
+			.config
+			.accounts
+			.first()
+			.map(|a| {
+				(
+					a.contacts.clone(),
+					a.external_account.as_ref().map(|e| e.identifier.clone()),
+					a.key_type.clone(),
+				)
+			})
+			.unwrap_or_default();
 		World {
 			plan,
 			mono: 0,
@@ -211,7 +299,11 @@ impl World {
 				}
 			}
 		}
-		self.trace.push(Event { seq, t: self.mono, ev });
+		self.trace.push(Event {
+			seq,
+			t: self.mono,
+			ev,
+		});
 		seq
 	}
 
